@@ -45,7 +45,7 @@ def sink_rule(ctx: Ctx, rule: str, kinds: Tuple[str, ...], what: str) -> int:
         if id(s.call) in exempt:
             continue
         n += 1
-        sl = sigflow.local_slice(ctx, s.func, s.arg)
+        sl = sigflow.local_slice(ctx, s.func, s.arg, follow_callers=True)
         found: List[Tuple[str, str, List[str]]] = []
         for it in sl.items:
             c = sigflow.classify_node(ctx, it.func, it.node)
